@@ -162,6 +162,11 @@ def check_scalar_wrapper(ctx: Ctx, rule="WRAP"):
             if len(core.args) != 2 or len(star) != 1 or U(core.args[0]) != fi.params[0]:
                 ctx.undecided(rule, fi.qualname, (fi, r.stmt), "call of the wrapped method not understood")
                 return 0
+            # keyword arguments the wrapper accepts reach the method on every path (a scalar path that forgets them evaluates the
+            # shape for φ = 0 whatever azimuth was given by keyword)
+            kwname = fi.node.args.kwarg.arg if fi.node.args.kwarg else None
+            if kwname is not None and not any(k.arg is None for k in core.keywords):
+                bad = bad or (r.stmt, f"the wrapper accepts **{kwname} but `{vtxt[:60]}` does not hand them to the method")
             ok = arg_list_ok(star[0].value)
             if ok is None:
                 ctx.undecided(rule, fi.qualname, (fi, r.stmt), "argument list not understood")
@@ -813,4 +818,82 @@ def check_params_not_rebound(ctx: Ctx, qual, names, rule="PARMAP", what="the per
                f"`{bad[0].id if bad else ''}` is re-bound inside {fi.name} (line {getattr(bad[0], 'lineno', '?') if bad else ''}): the work is no longer done on the caller's "
                f"{'image' if bad and 'field' in bad[0].id else 'input'} — a copy in another precision in one arm makes serial and parallel results differ, a filtered candidate list "
                "drops droplets that the binary image contains")
+    return 1
+
+
+def check_locals_not_rebound_after(ctx: Ctx, qual, source_pred, rule, site_suffix, what, why):
+    """locals that are bound to a value recognised by ``source_pred`` keep that value: no later statement re-binds them"""
+    m = ctx.model
+    if not m.has_func(qual):
+        return 0
+    fi = m.func(qual)
+    names = {}
+    for st in ast.walk(fi.node):
+        if isinstance(st, ast.Assign) and len(st.targets) == 1 and isinstance(st.targets[0], ast.Name) and source_pred(st.value):
+            names.setdefault(st.targets[0].id, st)
+    if not names:
+        ctx.undecided(rule, f"{qual}:{site_suffix}", fi, f"{what} not found")
+        return 0
+    bad = None
+    for st in ast.walk(fi.node):
+        tg = st.targets if isinstance(st, ast.Assign) else ([st.target] if isinstance(st, (ast.AugAssign, ast.AnnAssign)) else [])
+        for t in tg:
+            for e in (t.elts if isinstance(t, (ast.Tuple, ast.List)) else [t]):
+                if isinstance(e, ast.Name) and e.id in names and st is not names[e.id] and not source_pred(getattr(st, "value", None)):
+                    bad = bad or st
+    ctx.decide(bad is None, rule, f"{qual}:{site_suffix}", (fi, bad) if bad is not None else fi, f"{what} stay as they were read ({', '.join(sorted(names))})",
+               f"`{U(bad)[:80] if bad is not None else ''}` replaces {what}: {why}")
+    return 1
+
+
+def check_loop_targets_not_rebound(ctx: Ctx, qual, iter_contains, rule, site_suffix, why):
+    """the variables of the loop over ``…<iter_contains>…`` are not re-bound inside the loop body"""
+    m = ctx.model
+    if not m.has_func(qual):
+        return 0
+    fi = m.func(qual)
+    n = 0
+    for lp in ast.walk(fi.node):
+        if isinstance(lp, ast.For) and iter_contains in U(lp.iter):
+            tg = {x.id for x in ast.walk(lp.target) if isinstance(x, ast.Name)}
+            bad = [x for b in lp.body for x in ast.walk(b) if isinstance(x, ast.Name) and x.id in tg and isinstance(x.ctx, ast.Store)
+                   and not any(isinstance(f, (ast.FunctionDef, ast.Lambda)) and any(y is x for y in ast.walk(f)) for f in ast.walk(b))]
+            n += 1
+            ctx.decide(not bad, rule, f"{qual}:{site_suffix}", (fi, bad[0]) if bad else (fi, lp), f"the loop over `{U(lp.iter)[:40]}` works on the items it is handed ({', '.join(sorted(tg))})",
+                       f"`{bad[0].id if bad else ''}` is re-bound inside the loop (line {getattr(bad[0], 'lineno', '?') if bad else ''}): {why}")
+    return n
+
+
+def check_named_params_forwarded(ctx: Ctx, qual, callee_suffix, rule="FORWARD"):
+    """every named parameter of ``qual`` that the callee also has is handed to it (an option that is accepted but not forwarded is
+    silently ignored: the documented `method='distance'` would run the default method)"""
+    from ..astutil import call_bindings
+
+    m = ctx.model
+    if not m.has_func(qual):
+        return 0
+    fi = m.func(qual)
+    fv = view(m, fi)
+    calls = [c for c in fv.calls() if (fv.callee(c) or U(c.func)).endswith(callee_suffix)]
+    if not calls:
+        ctx.undecided(rule, f"{qual}:forwards", fi, f"call of {callee_suffix} not found")
+        return 0
+    c = calls[-1]
+    callee_q = fv.callee(c)
+    cal = m.func(callee_q) if callee_q and m.has_func(callee_q) else None
+    if cal is None:
+        # a classmethod called through cls: resolve by name in the same class
+        cands = [f for f in m.all_functions() if f.qualname.endswith("." + callee_suffix) and f.cls is fi.cls]
+        cal = cands[0] if cands else None
+    if cal is None:
+        ctx.undecided(rule, f"{qual}:forwards", fi, f"{callee_suffix} not resolved")
+        return 0
+    bound, unresolved = call_bindings(fv, c, cal)
+    shared = [p for p in fi.all_params if p in cal.all_params and p not in ("self", "cls")]
+    missing = [p for p in shared if p not in bound or p not in names_in(fv.expand(bound[p], c))]
+    star = any(k.arg is None for k in c.keywords)
+    missing = [p for p in missing if not (star and p in unresolved)]
+    ctx.decide(not missing, rule, f"{qual}:forwards", (fi, c), f"{', '.join(shared)} are handed on to {callee_suffix}",
+               f"`{U(c)[:90]}` does not hand on {missing}: the option is accepted and silently ignored, so the analysis runs with the callee's default "
+               "(e.g. tracking by overlap although method='distance' was requested)")
     return 1
